@@ -2,7 +2,7 @@
 C17 — definitions used in the statements of Props/C17.lean (closed sets of objects) and helper lemmas:
 every primitive of the model keeps a closed set closed and touches nothing outside it.
 -/
-import ParamVerif.Store.Copy
+import ParamVerif.Store.CopySpec
 
 namespace ParamVerif.Copy
 
@@ -529,5 +529,316 @@ theorem step_good {w w' : World} {S C : Nat → Prop} {op : Op} (hc : Closed w S
   | setAttr o name a => exact doSetAttr_good hc hop.1 hop.2 h
   | mutAttr o name n => exact doMutAttr_good hc hop h
   | watch o p t cb => exact doWatch_good hc hop.1 hop.2 h
+
+/-! ## `__setstate__` and the graph copy -/
+
+theorem rebindWatcher_spec {pol : Policy} {cls : ClassDef} {self : Nat} {wt wt' : Watcher} {pid pid' : Nat}
+    (h : rebindWatcher pol cls self wt pid = .ok (wt', pid')) :
+    wt'.inst = self ∧ (wt'.fn.owner = self ∨ wt'.fn = wt.fn) ∧ wt'.names = wt.names ∧ wt'.precedence = wt.precedence := by
+  unfold rebindWatcher at h
+  cases hk : wt.fn.kind <;> simp only [hk] at h
+  · by_cases hr : pol.redo wt.fn.owner self = true
+    · simp only [hr, if_true] at h
+      by_cases ha : cls.hasAttr wt.fn.method = true
+      · simp [ha] at h; obtain ⟨rfl, _⟩ := h; exact ⟨rfl, Or.inl rfl, rfl, rfl⟩
+      · simp [ha] at h
+    · simp [hr] at h; obtain ⟨rfl, _⟩ := h; exact ⟨rfl, Or.inr rfl, rfl, rfl⟩
+  · by_cases ho : wt.fn.owner = wt.inst
+    · simp [ho] at h; obtain ⟨rfl, _⟩ := h; exact ⟨rfl, Or.inl rfl, rfl, rfl⟩
+    · simp [ho] at h; obtain ⟨rfl, _⟩ := h; exact ⟨rfl, Or.inr rfl, rfl, rfl⟩
+
+theorem rebindList_spec {pol : Policy} {cls : ClassDef} {self : Nat} :
+    ∀ {l out : List Watcher} {pid pid' : Nat}, rebindList pol cls self l pid = .ok (out, pid') →
+    ∀ wt' ∈ out, wt'.inst = self ∧ (wt'.fn.owner = self ∨ ∃ wt ∈ l, wt'.fn = wt.fn)
+  | [], out, pid, pid', h => by simp [rebindList] at h; obtain ⟨rfl, _⟩ := h; simp
+  | wt :: rest, out, pid, pid', h => by
+    simp only [rebindList] at h
+    split at h
+    · simp at h
+    · rename_i wt1 pid1 h1
+      split at h
+      · simp at h
+      · rename_i rest' pid2 h2
+        simp at h; obtain ⟨rfl, _⟩ := h
+        intro wt' hwt'
+        simp only [List.mem_cons] at hwt'
+        rcases hwt' with rfl | hm
+        · obtain ⟨a, b, _⟩ := rebindWatcher_spec h1
+          exact ⟨a, b.imp id (fun e => ⟨wt, by simp, e⟩)⟩
+        · obtain ⟨a, b⟩ := rebindList_spec h2 wt' hm
+          exact ⟨a, b.imp id (fun ⟨x, hx, e⟩ => ⟨x, by simp [hx], e⟩)⟩
+
+theorem rebindTable_spec {pol : Policy} {cls : ClassDef} {self : Nat} :
+    ∀ {t out : List (String × List Watcher)} {pid pid' : Nat}, rebindTable pol cls self t pid = .ok (out, pid') →
+    ∀ kv' ∈ out, ∀ wt' ∈ kv'.2, wt'.inst = self ∧ (wt'.fn.owner = self ∨ ∃ kv ∈ t, ∃ wt ∈ kv.2, wt'.fn = wt.fn)
+  | [], out, pid, pid', h => by simp [rebindTable] at h; obtain ⟨rfl, _⟩ := h; simp
+  | (p, ws) :: rest, out, pid, pid', h => by
+    simp only [rebindTable] at h
+    split at h
+    · simp at h
+    · rename_i ws' pid1 h1
+      split at h
+      · simp at h
+      · rename_i rest' pid2 h2
+        simp at h; obtain ⟨rfl, _⟩ := h
+        intro kv' hkv' wt' hwt'
+        simp only [List.mem_cons] at hkv'
+        rcases hkv' with rfl | hm
+        · obtain ⟨a, b⟩ := rebindList_spec h1 wt' hwt'
+          exact ⟨a, b.imp id (fun ⟨x, hx, e⟩ => ⟨(p, ws), by simp, x, hx, e⟩)⟩
+        · obtain ⟨a, b⟩ := rebindTable_spec h2 kv' hm wt' hwt'
+          exact ⟨a, b.imp id (fun ⟨kv, hkv, x, hx, e⟩ => ⟨kv, by simp [hkv], x, hx, e⟩)⟩
+
+/-- what `__setstate__` may have done to the copied state `ob` of the object now at address `self` -/
+def Rebound (self : Nat) (ob ob' : Obj) : Prop :=
+  ob' = ob ∨ ∃ t, ob' = { ob with watchers := t } ∧
+    ∀ kv' ∈ t, ∀ wt' ∈ kv'.2, wt'.inst = self ∧ (wt'.fn.owner = self ∨ ∃ kv ∈ ob.watchers, ∃ wt ∈ kv.2, wt'.fn = wt.fn)
+
+theorem setstate_spec {pol : Policy} {classes : List ClassDef} {self : Nat} {ob ob' : Obj} {pid pid' : Nat}
+    (h : setstate pol classes self ob pid = .ok (ob', pid')) : Rebound self ob ob' := by
+  unfold setstate at h
+  split at h
+  · simp at h
+  · split at h
+    · simp at h
+    · rename_i t pid1 h1
+      simp at h; obtain ⟨rfl, _⟩ := h
+      exact Or.inr ⟨t, rfl, rebindTable_spec h1⟩
+
+theorem setstateAll_spec {pol : Policy} {classes : List ClassDef} {R : List Nat} {no : Nat} :
+    ∀ {l out : List Obj} {i pid pid' : Nat}, setstateAll pol classes R no l i pid = .ok (out, pid') →
+    out.length = l.length ∧ ∀ (j : Nat) (ob' : Obj), out[j]? = some ob' → ∃ ob, l[j]? = some ob ∧ Rebound (no + (i + j)) ob ob'
+  | [], out, i, pid, pid', h => by simp [setstateAll] at h; obtain ⟨rfl, _⟩ := h; simp
+  | ob :: rest, out, i, pid, pid', h => by
+    simp only [setstateAll] at h
+    split at h
+    · split at h
+      · simp at h
+      · rename_i ob1 pid1 h1
+        split at h
+        · simp at h
+        · rename_i rest' pid2 h2
+          simp at h; obtain ⟨rfl, _⟩ := h
+          obtain ⟨hl, hp⟩ := setstateAll_spec h2
+          refine ⟨by simp [hl], ?_⟩
+          intro j ob' hj
+          cases j with
+          | zero => simp at hj; subst hj; exact ⟨ob, by simp, by simpa using setstate_spec h1⟩
+          | succ j =>
+            simp at hj
+            obtain ⟨ob0, h0, hr⟩ := hp j ob' hj
+            exact ⟨ob0, by simpa using h0, by have : i + 1 + j = i + (j + 1) := by omega
+                                              rw [this] at hr; exact hr⟩
+    · split at h
+      · simp at h
+      · rename_i rest' pid2 h2
+        simp at h; obtain ⟨rfl, _⟩ := h
+        obtain ⟨hl, hp⟩ := setstateAll_spec h2
+        refine ⟨by simp [hl], ?_⟩
+        intro j ob' hj
+        cases j with
+        | zero => simp at hj; subst hj; exact ⟨ob, by simp, Or.inl rfl⟩
+        | succ j =>
+          simp at hj
+          obtain ⟨ob0, h0, hr⟩ := hp j ob' hj
+          exact ⟨ob0, by simpa using h0, by have : i + 1 + j = i + (j + 1) := by omega
+                                            rw [this] at hr; exact hr⟩
+
+/-- the shape of a successful copy -/
+theorem copyGraph_spec {pol : Policy} {w w' : World} {root r' : Nat} (h : copyGraph pol w root = .ok (w', r')) :
+    r' = w.objs.length + root ∧ w'.classes = w.classes ∧ w'.cells = w.cells ++ w.cells ∧ w'.log = w.log ∧
+    ∃ copies, w'.objs = w.objs ++ copies ∧ copies.length = w.objs.length ∧
+      ∀ (i : Nat) (ob' : Obj), copies[i]? = some ob' →
+        ∃ ob, w.objs[i]? = some ob ∧ Rebound (w.objs.length + i) (renObj w.objs.length w.cells.length w.nextPid ob) ob' := by
+  unfold copyGraph at h
+  split at h
+  · simp at h
+  · simp only at h
+    split at h
+    · simp at h
+    · rename_i copies pid hs
+      simp at h; obtain ⟨rfl, rfl⟩ := h
+      obtain ⟨hl, hp⟩ := setstateAll_spec hs
+      refine ⟨rfl, rfl, rfl, rfl, copies, rfl, by simpa using hl, ?_⟩
+      intro i ob' hi
+      obtain ⟨ob0, h0, hr⟩ := hp i ob' hi
+      simp only [List.getElem?_map] at h0
+      cases hob : w.objs[i]? with
+      | none => simp [hob] at h0
+      | some ob =>
+        simp [hob] at h0; subst h0
+        exact ⟨ob, rfl, by simpa using hr⟩
+
+
+/-- every method caller that `__setstate__` would re-create on `self` names an attribute of `self`'s class -/
+def Resolvable (pol : Policy) (c : ClassDef) (self : Nat) (ob : Obj) : Prop :=
+  ∀ kv ∈ ob.watchers, ∀ wt ∈ kv.2, wt.fn.kind = .mcaller → pol.redo wt.fn.owner self = true → c.hasAttr wt.fn.method = true
+
+theorem rebindWatcher_ok {pol : Policy} {cls : ClassDef} {self : Nat} {wt : Watcher} (pid : Nat)
+    (h : wt.fn.kind = .mcaller → pol.redo wt.fn.owner self = true → cls.hasAttr wt.fn.method = true) :
+    ∃ r, rebindWatcher pol cls self wt pid = .ok r := by
+  unfold rebindWatcher
+  cases hk : wt.fn.kind <;> simp only
+  · by_cases hr : pol.redo wt.fn.owner self = true
+    · simp [hr, h hk hr]
+    · simp [hr]
+  · split <;> exact ⟨_, rfl⟩
+
+theorem rebindList_ok {pol : Policy} {cls : ClassDef} {self : Nat} : ∀ (l : List Watcher) (pid : Nat),
+    (∀ wt ∈ l, wt.fn.kind = .mcaller → pol.redo wt.fn.owner self = true → cls.hasAttr wt.fn.method = true) →
+    ∃ r, rebindList pol cls self l pid = .ok r
+  | [], pid, _ => ⟨_, rfl⟩
+  | wt :: rest, pid, h => by
+    obtain ⟨⟨wt1, pid1⟩, h1⟩ := rebindWatcher_ok (pol := pol) (cls := cls) (self := self) pid (h wt (by simp))
+    obtain ⟨⟨r2, pid2⟩, h2⟩ := rebindList_ok rest pid1 (fun x hx => h x (by simp [hx]))
+    simp only [rebindList, h1, h2]; exact ⟨_, rfl⟩
+
+theorem rebindTable_ok {pol : Policy} {cls : ClassDef} {self : Nat} : ∀ (t : List (String × List Watcher)) (pid : Nat),
+    (∀ kv ∈ t, ∀ wt ∈ kv.2, wt.fn.kind = .mcaller → pol.redo wt.fn.owner self = true → cls.hasAttr wt.fn.method = true) →
+    ∃ r, rebindTable pol cls self t pid = .ok r
+  | [], pid, _ => ⟨_, rfl⟩
+  | (p, ws) :: rest, pid, h => by
+    obtain ⟨⟨ws1, pid1⟩, h1⟩ := rebindList_ok (pol := pol) (cls := cls) (self := self) ws pid (h (p, ws) (by simp))
+    obtain ⟨⟨r2, pid2⟩, h2⟩ := rebindTable_ok rest pid1 (fun x hx => h x (by simp [hx]))
+    simp only [rebindTable, h1, h2]; exact ⟨_, rfl⟩
+
+theorem setstate_ok {pol : Policy} {classes : List ClassDef} {self : Nat} {ob : Obj} {c : ClassDef} (pid : Nat)
+    (hc : classes[ob.cls]? = some c) (h : Resolvable pol c self ob) :
+    ∃ r, setstate pol classes self ob pid = .ok r := by
+  obtain ⟨⟨t, pid1⟩, h1⟩ := rebindTable_ok (pol := pol) (cls := c) (self := self) ob.watchers pid h
+  simp only [setstate, hc, h1]; exact ⟨_, rfl⟩
+
+theorem setstateAll_ok {pol : Policy} {classes : List ClassDef} {R : List Nat} {no : Nat} :
+    ∀ (l : List Obj) (i pid : Nat),
+    (∀ (j : Nat) (ob : Obj), l[j]? = some ob → (i + j) ∈ R →
+      ∃ c, classes[ob.cls]? = some c ∧ Resolvable pol c (no + (i + j)) ob) →
+    ∃ r, setstateAll pol classes R no l i pid = .ok r
+  | [], i, pid, _ => ⟨_, rfl⟩
+  | ob :: rest, i, pid, h => by
+    have hrest : ∀ pid', ∃ r, setstateAll pol classes R no rest (i + 1) pid' = .ok r := fun pid' =>
+      setstateAll_ok rest (i + 1) pid' (fun j ob' hj hR => by
+        have e : i + 1 + j = i + (j + 1) := by omega
+        rw [e] at hR ⊢
+        exact h (j + 1) ob' (by simpa using hj) hR)
+    simp only [setstateAll]
+    by_cases hi : i ∈ R
+    · obtain ⟨c, hc, hres⟩ := h 0 ob (by simp) (by simpa using hi)
+      obtain ⟨⟨ob1, pid1⟩, h1⟩ := setstate_ok (pol := pol) (self := no + i) pid hc (by simpa using hres)
+      obtain ⟨⟨r2, pid2⟩, h2⟩ := hrest pid1
+      simp only [hi, if_true, h1, h2]; exact ⟨_, rfl⟩
+    · obtain ⟨⟨r2, pid2⟩, h2⟩ := hrest pid
+      simp only [hi, if_false, h2]; exact ⟨_, rfl⟩
+
+theorem renObj_watchers {no nc np : Nat} {ob : Obj} {kv : String × List Watcher} {wt : Watcher}
+    (hkv : kv ∈ (renObj no nc np ob).watchers) (hwt : wt ∈ kv.2) :
+    ∃ kv0 ∈ ob.watchers, ∃ wt0 ∈ kv0.2, wt = renWatcher no np wt0 := by
+  simp only [renObj, List.mem_map] at hkv
+  obtain ⟨kv0, hkv0, rfl⟩ := hkv
+  simp only [List.mem_map] at hwt
+  obtain ⟨wt0, hwt0, rfl⟩ := hwt
+  exact ⟨kv0, hkv0, wt0, hwt0, rfl⟩
+
+/-- the copy succeeds when `__setstate__` can resolve every method caller it re-creates, on every
+object reachable from the root -/
+theorem copyGraph_ok {pol : Policy} {w : World} {root : Nat} (hroot : root < w.objs.length)
+    (h : ∀ i ∈ reach w root, ∀ ob, w.objs[i]? = some ob → ∃ c, w.classes[ob.cls]? = some c ∧
+      ∀ kv ∈ ob.watchers, ∀ wt ∈ kv.2, wt.fn.kind = .mcaller →
+        pol.redo (w.objs.length + wt.fn.owner) (w.objs.length + i) = true → c.hasAttr wt.fn.method = true) :
+    ∃ r, copyGraph pol w root = .ok r := by
+  unfold copyGraph
+  have hr : ∃ ob, w.objs[root]? = some ob := ⟨w.objs[root], by simp [hroot]⟩
+  obtain ⟨ob, hob⟩ := hr
+  simp only [hob]
+  obtain ⟨⟨copies, pid⟩, hs⟩ := setstateAll_ok (pol := pol) (classes := w.classes) (R := reach w root) (no := w.objs.length)
+    (w.objs.map (renObj w.objs.length w.cells.length w.nextPid)) 0 (w.nextPid + w.nextPid) (by
+      intro j ob' hj hR
+      simp only [List.getElem?_map] at hj
+      cases hoj : w.objs[j]? with
+      | none => simp [hoj] at hj
+      | some ob0 =>
+        simp [hoj] at hj; subst hj
+        obtain ⟨c, hc, hres⟩ := h j (by simpa using hR) ob0 hoj
+        refine ⟨c, by simpa [renObj] using hc, ?_⟩
+        intro kv hkv wt hwt hk hredo
+        obtain ⟨kv0, hkv0, wt0, hwt0, rfl⟩ := renObj_watchers hkv hwt
+        have hk0 : wt0.fn.kind = .mcaller := by simpa [renWatcher, renCaller] using hk
+        have := hres kv0 hkv0 wt0 hwt0 hk0 (by simpa [renWatcher, renCaller] using hredo)
+        simpa [renWatcher, renCaller] using this)
+  simp only [hs]; exact ⟨_, rfl⟩
+
+/-! ### the two halves of the world after a copy -/
+
+theorem renObj_refsIn (no nc np : Nat) (ob : Obj) :
+    (renObj no nc np ob).refsIn (fun o => no ≤ o) (fun c => nc ≤ c) := by
+  refine ⟨?_, ?_, ?_, ?_⟩
+  · intro kv hkv
+    simp only [renObj, List.mem_map] at hkv
+    obtain ⟨kv0, _, rfl⟩ := hkv
+    cases kv0.2 <;> simp [renVal, Val.inSets]
+  · intro kv hkv
+    simp only [renObj, List.mem_map] at hkv
+    obtain ⟨kv0, _, rfl⟩ := hkv
+    cases kv0.2 <;> simp [renVal, Val.inSets]
+  · intro kv hkv wt hwt
+    obtain ⟨_, _, wt0, _, rfl⟩ := renObj_watchers hkv hwt
+    simp [Watcher.inSet, renWatcher, renCaller]
+  · intro kv hkv wt hwt
+    simp only [renObj, List.mem_map] at hkv
+    obtain ⟨kv0, _, rfl⟩ := hkv
+    simp only [List.mem_map] at hwt
+    obtain ⟨wt0, _, rfl⟩ := hwt
+    simp [Watcher.inSet, renWatcher, renCaller]
+
+theorem Rebound.refsIn {no nc np self : Nat} {ob ob' : Obj} (hs : no ≤ self)
+    (h : Rebound self (renObj no nc np ob) ob') : ob'.refsIn (fun o => no ≤ o) (fun c => nc ≤ c) := by
+  have h0 := renObj_refsIn no nc np ob
+  rcases h with rfl | ⟨t, rfl, ht⟩
+  · exact h0
+  · refine ⟨h0.values, h0.attrs, ?_, h0.dyn⟩
+    intro kv hkv wt hwt
+    obtain ⟨hi, ho⟩ := ht kv hkv wt hwt
+    refine ⟨by rw [hi]; exact hs, ?_⟩
+    rcases ho with ho | ⟨kv0, hkv0, wt0, hwt0, e⟩
+    · rw [ho]; exact hs
+    · rw [e]; exact (h0.watchers kv0 hkv0 wt0 hwt0).2
+
+/-- after a copy the new objects refer only to new objects and new lists … -/
+theorem copy_closed_high {pol : Policy} {w w' : World} {root r' : Nat} (h : copyGraph pol w root = .ok (w', r')) :
+    Closed w' (fun o => w.objs.length ≤ o) (fun c => w.cells.length ≤ c) := by
+  obtain ⟨_, _, _, _, copies, ho, hl, hp⟩ := copyGraph_spec h
+  intro i ob' hi hob'
+  rw [ho] at hob'
+  have : (w.objs ++ copies)[i]? = copies[i - w.objs.length]? := List.getElem?_append_right hi
+  rw [this] at hob'
+  obtain ⟨ob, _, hr⟩ := hp _ ob' hob'
+  exact hr.refsIn (by omega)
+
+/-- … and the old objects are untouched (so they still refer only to old objects and old lists) -/
+theorem copy_closed_low {pol : Policy} {w w' : World} {root r' : Nat} (h : copyGraph pol w root = .ok (w', r'))
+    (hw : Closed w (fun o => o < w.objs.length) (fun c => c < w.cells.length)) :
+    Closed w' (fun o => o < w.objs.length) (fun c => c < w.cells.length) := by
+  obtain ⟨_, _, _, _, copies, ho, _, _⟩ := copyGraph_spec h
+  intro i ob' hi hob'
+  rw [ho, List.getElem?_append_left hi] at hob'
+  exact hw i ob' hi hob'
+
+
+/-! ### well-formedness, decidable (evaluated by the driver on every world it copies) -/
+
+theorem wfB_sound {w : World} (h : wfB w = true) :
+    Closed w (fun o => o < w.objs.length) (fun c => c < w.cells.length) := by
+  intro i ob _ hob
+  have hm : ob ∈ w.objs := List.mem_of_getElem? hob
+  have h1 := (List.all_eq_true.1 h) ob hm
+  simp only [objOKB, Bool.and_eq_true, List.all_eq_true] at h1
+  obtain ⟨⟨⟨hv, ha⟩, hw⟩, hd⟩ := h1
+  have hval : ∀ v : Val, valOKB w.objs.length w.cells.length v = true →
+      v.inSets (fun o => o < w.objs.length) (fun c => c < w.cells.length) := by
+    intro v hv
+    cases v <;> simp_all [valOKB, Val.inSets]
+  have hwt : ∀ wt : Watcher, watcherOKB w.objs.length wt = true → wt.inSet (fun o => o < w.objs.length) := by
+    intro wt h; simp [watcherOKB] at h; exact h
+  exact ⟨fun kv hkv => hval _ (hv kv hkv), fun kv hkv => hval _ (ha kv hkv),
+         fun kv hkv wt hx => hwt wt (hw kv hkv wt hx), fun kv hkv wt hx => hwt wt (hd kv hkv wt hx)⟩
 
 end ParamVerif.Copy
